@@ -276,6 +276,16 @@ def shouldMITM (hasConfig : Bool) (filter : Option (Bytes → Bool)) (authority 
 def connectPath (hasConfig : Bool) (filter : Option (Bytes → Bool)) (authority : Bytes) : Path :=
   if shouldMITM hasConfig filter authority then .mitm else .tunnel
 
+/-- a mitm-domains list given extensionally: (subject, some include rule matches, some exclude rule
+    matches) for finitely many subjects — the harness computes the verdicts of the configured
+    regular expressions (their semantics belong to C17) for the host name alone AND for the
+    `host:port` / bracketed spellings of the same CONNECT target; which of the subjects is looked up
+    is the model's business.  A subject that is not listed matches no rule. -/
+def tableFilter (tab : List (Bytes × Bool × Bool)) : Bytes → Bool :=
+  domainsMatch
+    (fun s => match tab.lookup s with | some v => v.1 | none => false)
+    (fun s => match tab.lookup s with | some v => v.2 | none => false)
+
 /-! ## Requests read from the intercepted session -/
 
 def http : Bytes := [104, 116, 116, 112]
@@ -313,6 +323,29 @@ def forward (scheme : Bytes) (insecure originVerifies : Bool) : Outcome :=
 /-- an origin-form request read from the intercepted (TLS) session -/
 def interceptedRequest (xfp : Bytes) (allowHTTP insecure originVerifies : Bool) : Outcome :=
   forward (fixScheme [] xfp true allowHTTP) insecure originVerifies
+
+/-! ## Which name the origin's certificate is verified for
+
+  `tls.go` `ConfigureTLSConfig`/`loadRootCAs`: `RootCAs` = system pool + `CACertFiles`,
+  `InsecureSkipVerify = Insecure`, no `VerifyConnection`/`VerifyPeerCertificate` — so the default
+  verifier of crypto/tls runs: `x509.VerifyOptions{DNSName: config.ServerName}`.  net/http sets
+  `ServerName` to the host of the dial target with the port cut (`connectMethod.tlsHost`); that is
+  the URL's host, for DNS names and IP literals alike.  SNI is NOT sent for IP literals
+  (`hostnameInSNI`), the name check is made all the same: `VerifyHostname` removes the brackets of
+  an IPv6 literal and compares IP literals with the certificate's IPAddresses only. -/
+
+/-- the name the origin's certificate must be valid for; `authority` = `Host` of the request read
+    from the intercepted session (with or without port) -/
+def originVerifyName (authority : Bytes) : Bytes := urlHostname authority
+
+def originVerifies (vf : Verifier) (c : Cert) (authority : Bytes) (now : Int) : Bool :=
+  vf c (originVerifyName authority) now
+
+/-- an origin-form request for `authority` read from the intercepted session, the origin presenting
+    certificate `c` at time `now` -/
+def interceptedTo (vf : Verifier) (xfp : Bytes) (allowHTTP insecure : Bool) (c : Cert)
+    (authority : Bytes) (now : Int) : Outcome :=
+  interceptedRequest xfp allowHTTP insecure (originVerifies vf c authority now)
 
 end C07
 end FwdVerif
